@@ -92,6 +92,22 @@ let run (args : (string * string) list) : string =
        | None -> add "load" "FAIL(load-error)"
      end
    | _ -> ());
+  (* the three-file loader of the link theorem C05_link_load_files: properties text, .graph
+     and .offsets bytes all as the implementation wrote them; random access to a sample of
+     nodes (first, last, and up to six in between) *)
+  (match get_opt args "props", get_opt args "offsets" with
+   | Some ph, Some oh when not is_dataset && glen <= 60000 && nn > 0 ->
+     let text = coq_of_string (string_of_hex ph) in
+     let ob = bytes_of_hex oh in
+     let obits = bits_of_bytes false ob 0 (Bytes.length ob * 8) in
+     let bits = bits_of_bytes le buf 0 glen in
+     let step = Stdlib.max 1 (nn / 7) in
+     let rec xs i = if i >= nn then [nn - 1] else i :: xs (i + step) in
+     let fuel = nat_of_int nn in
+     let bad = List.filter (fun x ->
+       load_ra_files le text obits bits fuel (n_of_int x) <> Some (List.nth g x)) (xs 0) in
+     add "loadra" (match bad with [] -> "ok" | x :: _ -> Printf.sprintf "FAIL(node%d)" x)
+   | _ -> ());
   (* the expected graph of a CLI transform step, recomputed with the proved specification
      functions of C09 from the source graph *)
   (match get_opt args "xop", get_opt args "xsrc" with
